@@ -551,6 +551,142 @@ def judge(pid, seed, tier):
                 again = np.asarray(fn(y32, z), dtype=float)
                 if not np.array_equal(again, got):
                     add(nm, dict(y=y0.tolist(), z=z0.tolist()), [got.tolist(), again.tolist()], "a second call with the same arrays gives the same values")
+    # ---- directed probes (each one is the failing input class of a seeded change that was first detected without an input)
+    if pid in ("C04", "C14"):
+        # predictions a hair below / above the observation: the sign of every factor of a quantile score is exact
+        for cls, nm in ((HomogeneousQuantileScore, "HomogeneousQuantileScore"),):
+            for h in (1.0, 3.0, 0.5, 2.0):
+                for a in (0.2, 0.8):
+                    for y in (1.0, 2.5, 1e-3, 40.0):
+                        for d in (1e-10, 1e-11, -1e-10):
+                            tried += 1
+                            z = y * (1 - d)
+                            r = real(lambda: cls(degree=h, level=a).score_per_obs([y], [z]))
+                            if r[0] != "val" or r[1] < -1e-14 * y ** h:
+                                add(nm + ".score_per_obs", [h, a, y, z], r, "score >= 0 (prediction within 1e-10 relative of the observation)")
+        # degrees next to the special cases 0 and 1 belong to the neighbouring general branch (domain and closed form)
+        for cls, nm, dom in ((HomogeneousExpectileScore, "HomogeneousExpectileScore", hes_in), (HomogeneousQuantileScore, "HomogeneousQuantileScore", hqs_in)):
+            for h in (1 + 1e-9, 1e-9, 1 - 4e-6, 1 + 4e-6):
+                for y, z in ((-1.5, -2.5), (0.0, 1.0), (2.0, 3.0), (-1.0, 1.0), (1.0, 0.5)):
+                    tried += 1
+                    r = real(lambda: cls(degree=h, level=0.3).score_per_obs([y], [z]))
+                    if dom(h, y, z) and r[0] != "val":
+                        add(nm + ".score_per_obs", [h, 0.3, y, z], r, "in-domain pair must give a finite number (degree next to a special case)")
+                    if not dom(h, y, z) and r[0] != "V":
+                        add(nm + ".score_per_obs", [h, 0.3, y, z], r, "pair outside the documented domain must raise ValueError (degree next to a special case)")
+        for h in (1 - 4e-6, 1 + 4e-6):
+            # homogeneity with a large factor separates degree h from degree 1:  c^h / c = 2^(+-80e-6)
+            for y, z in ((1.0, 2.0), (3.0, 1.5)):
+                tried += 1
+                c = 2.0 ** 20
+                sf = HomogeneousQuantileScore(degree=h, level=0.3)
+                r1, r2 = real(lambda: sf.score_per_obs([y], [z])), real(lambda: sf.score_per_obs([c * y], [c * z]))
+                if r1[0] == "val" and r2[0] == "val" and abs(r2[1] - c ** h * r1[1]) > 1e-7 * abs(c ** h * r1[1]):
+                    add("HomogeneousQuantileScore.score_per_obs", [h, 0.3, y, z, c], [r1, r2], "S(cy,cz) = c^h S(y,z)")
+        # odd degrees with observation and prediction of opposite sign: the definition (z^h - y^h)/h
+        for h in (3.0, 5.0):
+            for a in (0.2, 0.5, 0.7):
+                for y, z in ((-2.0, 0.5), (2.0, -0.5), (-1.0, 0.0), (1.5, -1.5), (0.0, -2.0)):
+                    tried += 1
+                    want = ((1.0 if z >= y else 0.0) - a) * (z ** h - y ** h) / h
+                    r = real(lambda: HomogeneousQuantileScore(degree=h, level=a).score_per_obs([y], [z]))
+                    if r[0] != "val" or abs(r[1] - want) > 1e-12 * (1 + abs(want)):
+                        add("HomogeneousQuantileScore.score_per_obs", [h, a, y, z], r, f"definition (1{{z>=y}} - level)(z^h - y^h)/h = {want}")
+    if pid in ("C04", "C05", "C14"):
+        # scorer objects keep no state between calls and read their public attributes at call time
+        yy = np.array([1.0, 2.0, 0.5])
+        for mk, nm, zbad in ((lambda: HomogeneousQuantileScore(degree=0, level=0.3), "HomogeneousQuantileScore(0,0.3)", [-1.0, 3.0, 1.0]),
+                             (lambda: HomogeneousQuantileScore(degree=2.5, level=0.3), "HomogeneousQuantileScore(2.5,0.3)", [1.0, -3.0, 1.0]),
+                             (lambda: HomogeneousExpectileScore(degree=1, level=0.3), "HomogeneousExpectileScore(1,0.3)", [1.0, 0.0, 1.0])):
+            tried += 1
+            sf = mk()
+            r1 = real(lambda: float(np.sum(sf.score_per_obs(yy, [1.5, 1.0, 2.0]))))
+            r2 = real(lambda: float(np.sum(sf.score_per_obs(yy, zbad))))
+            if r1[0] != "val" or r2[0] != "V":
+                add(nm + ".score_per_obs", dict(y=yy.tolist(), first_call_z=[1.5, 1.0, 2.0], second_call_z=zbad), [r1, r2],
+                    "a second call on the same scorer with the same y_obs object and a prediction outside the domain must raise ValueError")
+        for cls, nm, h in ((HomogeneousQuantileScore, "HomogeneousQuantileScore", 1.0), (HomogeneousQuantileScore, "HomogeneousQuantileScore", 3.0),
+                           (HomogeneousExpectileScore, "HomogeneousExpectileScore", 2.0), (HomogeneousExpectileScore, "HomogeneousExpectileScore", 1.5)):
+            tried += 1
+            sf = cls(degree=h, level=0.2)
+            sf.score_per_obs(yy, [1.5, 1.0, 2.0])
+            sf.level = 0.9
+            got = np.asarray(sf.score_per_obs(yy, [1.5, 1.0, 2.0]), dtype=float)
+            fresh = np.asarray(cls(degree=h, level=0.9).score_per_obs(yy, [1.5, 1.0, 2.0]), dtype=float)
+            sf2 = cls(degree=h, level=0.2)
+            sf2.degree = 0.5 if cls is HomogeneousQuantileScore else 2.5
+            got2 = np.asarray(sf2.score_per_obs(yy, [1.5, 1.0, 2.0]), dtype=float)
+            fresh2 = np.asarray(cls(degree=sf2.degree, level=0.2).score_per_obs(yy, [1.5, 1.0, 2.0]), dtype=float)
+            if not np.allclose(got, fresh, rtol=1e-12, atol=0) or not np.allclose(got2, fresh2, rtol=1e-12, atol=0):
+                add(nm + ".score_per_obs", dict(degree=h, level_reassigned=[0.2, 0.9], degree_reassigned=[h, sf2.degree], y=yy.tolist(), z=[1.5, 1.0, 2.0]),
+                    [got.tolist(), fresh.tolist(), got2.tolist(), fresh2.tolist()],
+                    "a scorer whose public attribute level / degree was reassigned scores like a fresh scorer with those values")
+    if pid == "C05":
+        # the level is documented as neglected for the median
+        for eta in (1.0, 1.5, 2.0):
+            tried += 1
+            yv, zv = [0.0, 1.0, 2.0, 1.0, 3.0], [0.5, 1.0, 2.5, 1.5, 1.0]
+            a_ = np.asarray(ElementaryScore(eta, "median", 0.9).score_per_obs(yv, zv), dtype=float)
+            b_ = np.asarray(ElementaryScore(eta, "median").score_per_obs(yv, zv), dtype=float)
+            c_ = np.asarray(ElementaryScore(eta, "quantile", 0.5).score_per_obs(yv, zv), dtype=float)
+            if not (np.array_equal(a_, b_) and np.array_equal(b_, c_)):
+                add("ElementaryScore.score_per_obs", dict(eta=eta, y=yv, z=zv), [a_.tolist(), b_.tolist(), c_.tolist()],
+                    "functional='median' (any level) = functional='quantile' at level 0.5")
+        # __call__ is the weighted average for tiny weight units and for integer-typed scores with fractional weights
+        for sf, nm in ((SquaredError(), "SquaredError"), (PinballLoss(0.3), "PinballLoss(0.3)"), (HomogeneousExpectileScore(2, 0.5), "HES(2,0.5)"), (PoissonDeviance(), "PoissonDeviance")):
+            for yv, zv in ((np.array([1, 3, 2, 5], dtype=np.int64), np.array([2, 1, 2, 3], dtype=np.int64)), (np.array([1.0, 3.0, 2.0, 5.0]), np.array([2.0, 1.0, 2.5, 3.0]))):
+                for wv in (np.array([0.25, 1.75, 0.5, 2.5]), np.array([1.0, 7.0, 2.0, 9.0]) * 2.0 ** -33, np.array([1.0, 7.0, 2.0, 9.0]) * 1e-12):
+                    tried += 1
+                    spo = np.asarray(sf.score_per_obs(yv.astype(float), zv.astype(float)), dtype=float)
+                    want = float((spo * wv).sum() / wv.sum())
+                    r = real(lambda: sf(yv, zv, weights=wv))
+                    if r[0] != "val" or abs(r[1] - want) > 1e-9 * (1 + abs(want)):
+                        add(nm + ".__call__", dict(y=yv.tolist(), y_dtype=str(yv.dtype), z=zv.tolist(), w=wv.tolist()), [r, want],
+                            "the aggregated score is the weighted average of the per-observation scores")
+    if pid == "C08":
+        # a list that is refilled in place between two calls; levels at the edge of the open unit interval
+        buf = [1.0, 2.0, 3.0]
+        first = np.asarray(identification_function(buf, [2.0, 2.0, 2.0], functional="mean"), dtype=float)
+        buf[:] = [5.0, 0.0, 2.0]
+        for f in ("mean", "median", "expectile", "quantile"):
+            tried += 1
+            got = np.asarray(identification_function(buf, [2.0, 2.0, 2.0], functional=f, level=0.3), dtype=float)
+            fresh = np.asarray(identification_function([5.0, 0.0, 2.0], [2.0, 2.0, 2.0], functional=f, level=0.3), dtype=float)
+            if not np.array_equal(got, fresh):
+                add("identification_function", dict(functional=f, y_first_call=[1.0, 2.0, 3.0], y_second_call=[5.0, 0.0, 2.0], z=[2.0, 2.0, 2.0]), [got.tolist(), fresh.tolist()],
+                    "a list refilled in place between two calls is read again")
+        for f in ("expectile", "quantile"):
+            for a in (1e-17, 5e-324, 2.0 ** -60, 1 - 2.0 ** -53):
+                tried += 1
+                r = real(lambda: float(identification_function([1.0], [2.0], functional=f, level=a)[0]))
+                want = (1.0 - a) if f == "quantile" else 2 * abs(1.0 - a) * 1.0
+                if r[0] != "val" or abs(r[1] - want) > 1e-12:
+                    add("identification_function", [f, a, 1.0, 2.0], r, f"a level inside the open unit interval is accepted, closed form {want}")
+        # every prediction tied with its observation (single pair, whole arrays, the same object twice)
+        for f, want in (("median", 0.5), ("quantile", 0.7), ("mean", 0.0), ("expectile", 0.0)):
+            arr = np.array([1.0, 2.5, 2.5])
+            for yv, zv in (([2.0], [2.0]), (arr, arr), (arr, arr.copy())):
+                tried += 1
+                got = np.asarray(identification_function(yv, zv, functional=f, level=0.3), dtype=float)
+                if not np.allclose(got, want, rtol=0, atol=1e-15):
+                    add("identification_function", dict(functional=f, level=0.3, y=np.asarray(yv).tolist(), z=np.asarray(zv).tolist()), got.tolist(), f"closed form {want} at a tie")
+    if pid == "C15":
+        # thresholds one ulp next to a data value
+        for f in ("mean", "expectile", "quantile", "median"):
+            for y, z in ((2.0, 1.0), (1.0, 2.0), (0.3, 0.7)):
+                for base in (y, z):
+                    for eta in (np.nextafter(base, 10.0), np.nextafter(base, -10.0), base * (1 + 1e-6), base * (1 - 1e-6)):
+                        tried += 1
+                        eta = float(eta)
+                        r = real(lambda: ElementaryScore(eta, f, 0.3).score_per_obs([y], [z]))
+                        if f in ("mean", "expectile"):
+                            v = (2 * abs((1.0 if eta >= y else 0.0) - (0.5 if f == "mean" else 0.3)) * (eta - y)) if f == "expectile" else (eta - y)
+                            want = ((1.0 if eta <= z else 0.0) - (1.0 if eta <= y else 0.0)) * v
+                        else:
+                            lvl = 0.5 if f == "median" else 0.3
+                            want = ((1.0 if eta < z else 0.0) - (1.0 if eta < y else 0.0)) * ((1.0 if eta >= y else 0.0) - lvl)
+                        if r[0] != "val" or r[1] < -1e-15 or abs(r[1] - want) > 1e-12 * (1 + abs(want)):
+                            add(f"ElementaryScore[{f}]", dict(eta=eta, level=0.3, y=y, z=z), r, f"elementary score {want} >= 0 for a threshold next to a data value")
     # ---- float32 observations / predictions with a threshold eta (Python float AND numpy float64) within float32 rounding of
     # a data value: the same real numbers as float64 arrays must give the same scores; the score is >= 0 (C15)
     if pid == "C15":
